@@ -608,17 +608,21 @@ func c02f(c *Ctx) {
 		ok := false
 		if ph, isPhi := opVal.(*ssa.Phi); isPhi {
 			var plain, neg bool
+			other := false
 			for i, e := range ph.Edges {
 				et := c.term(fn, e)
 				must := c.edgeMust(fn, ph.Block().Preds[i], ph.Block())
-				if et == "$0.curToken.Type" && !hasLit(must, "+$3") {
+				switch {
+				case et == "$0.curToken.Type" && hasLit(must, "-$3"):
 					plain = true
-				}
-				if et == "parser.getNegatedBooleanOperator($0.curToken.Type)" && hasLit(must, "+$3") {
+				case et == "parser.getNegatedBooleanOperator($0.curToken.Type)" && hasLit(must, "+$3"):
 					neg = true
+				default:
+					// e.g. the plain token type although the flag is set
+					other = true
 				}
 			}
-			ok = plain && neg
+			ok = plain && neg && !other
 		}
 		c.Check(ok, "binary["+op+"]/operator", pos, "Operator = the tested token's type, negated exactly under the negated flag", "the operator stored for "+op+" is not (negated ? not(tokenType) : tokenType) of the token that was tested")
 		c.Check(c.fieldAtUse(fn, a, "Left", lastUse(a)) == "$1", "binary["+op+"]/left", pos, "Left = the expression parsed so far", "Left operand is "+c.fieldAtUse(fn, a, "Left", lastUse(a)))
@@ -826,8 +830,17 @@ func c02h(c *Ctx) {
 				hasNeg = false
 			}
 		}
-		ok = strings.HasPrefix(v, "parser.getNegatedBooleanOperator((*parser.Parser).parseLeafBooleanExpression@0#0.Operator") && hasNeg
-		why = "leaf operator set to " + pretty(v) + " under [" + d.String() + "], expected getNegatedBooleanOperator(leaf.Operator) exactly under negated"
+		rel := c.guardsBeyondErrors(be, st.Block())
+		// relative to where the leaf is parsed
+		base := mkDNF([]string{})
+		if lf := c.Fn("parser.Parser.parseLeafBooleanExpression"); lf != nil {
+			for _, call := range callsToIn(be, lf) {
+				base = c.guardsBeyondErrors(be, call.Block())
+			}
+		}
+		exact := dnfEquiv(rel, dnfAndLit(base, "+$2"))
+		ok = strings.HasPrefix(v, "parser.getNegatedBooleanOperator((*parser.Parser).parseLeafBooleanExpression@0#0.Operator") && hasNeg && exact
+		why = "leaf operator set to " + pretty(v) + " under [" + rel.String() + "], expected getNegatedBooleanOperator(leaf.Operator) exactly under negated (no further condition: every leaf under a negation is negated)"
 	}
 	c.Check(ok, "leaf/negated-operator", c.W.FuncPos(be), "a leaf's operator is negated exactly when the flag is set", why)
 }
